@@ -106,7 +106,7 @@ class CheckC03(core.Check):
         # expand into chunks of mutations so shards balance: desc = (name, k, seed, chunk)
         out = []
         for name, k, seed, _ in descs:
-            n = len(self._muts(name, k, seed)) + 4
+            n = len(self._muts(name, k, seed)) + 7
             for ch in range(0, n, 40):
                 out.append((name, k, seed, ch))
         return out
@@ -118,6 +118,30 @@ class CheckC03(core.Check):
         m = mutations(parsed, k, paylen, rnd, full=(self.tier != "quick"))
         return [("p", paylen)] + m
 
+    def _special(self, parsed, k, seed, paylen):
+        """alterations that need knowledge of the message's content (the scripted ephemeral is predictable)"""
+        from noiseref.patterns import tokens_for
+        from ..script import script_rng_bytes
+
+        out = []
+        toks = tokens_for(parsed.pattern, parsed.psks)
+        if parsed.dh == "P256" and "e" in toks[k]:
+            # the writer's ephemeral: its RNG stream is script:<seed> (initiator) / script:<seed+7> (responder), one
+            # 32-byte draw per earlier message of the same party that carried an `e`
+            earlier = sum(1 for j in range(k) if j % 2 == k % 2 and "e" in toks[j])
+            sd = seed if k % 2 == 0 else seed + 7
+            priv = script_rng_bytes(str(sd), 0, 32 * earlier, 32)
+            pub = prims.dh_pub("P256", priv)
+            if pub is not None:
+                p = 0xFFFFFFFF00000001000000000000000000000000FFFFFFFFFFFFFFFFFFFFFFFF
+                neg = (p - int.from_bytes(pub[33:65], "big")).to_bytes(32, "big")
+                # the same x coordinate with the other y: a valid point with the same DH result (x only)
+                out.append(("~set:33:%s" % neg.hex(), "negate-e", "e"))
+        # extensions delivered into an EMPTY payload buffer
+        out.append(("~ext:gen:5:z", "ext-buf0", "len"))
+        out.append(("~ext:gen:16:z", "ext-buf0", "len"))
+        return out
+
     def build(self, desc):
         """one driver case per desc holds up to 40 independent sub-sessions (parties suffixed by index)"""
         name, k, seed, ch = desc
@@ -125,6 +149,7 @@ class CheckC03(core.Check):
         muts = self._muts(name, k, seed)
         paylen = muts[0][1]
         muts = muts[1:] + [("$SUBprev", "subst-earlier", "msg"), ("$SUBother", "subst-otherkeys", "msg"), ("$SUBeph", "subst-othereph", "msg"), ("", "control", "none")]
+        muts += self._special(parsed, k, seed, paylen)
         sel = muts[ch:ch + 40]
         c = Case("ti-%s-%d-%d-%d" % (name, k, seed, ch), desc)
         keys = sessions.Keys(parsed, seed)
@@ -161,7 +186,7 @@ class CheckC03(core.Check):
                     msg = "$o%d_%d" % (j, k)
             else:
                 msg = src + mut
-            lr = c.op("hs_read", r, msg=msg, buf=BIG)
+            lr = c.op("hs_read", r, msg=msg, buf=0 if kind == "ext-buf0" else BIG)
             # carry on honestly: whoever has the turn writes, the other reads
             lp = c.op("pingpong", a=a, b=b, max=6, plen=1, seed="pp")
             subs.append((j, lw, lr, lp, msg, kind, field))
@@ -224,6 +249,7 @@ class CheckC03(core.Check):
                 r.stats["identical_after_mutation_dropped"] += 1
                 continue
             r.stats["altered_deliveries"] += 1
+            r.stats["kind_" + kind] += 1
             pp = by.get(str(lp), [])
             done = [e for e in pp if e.op == "pingpong"]
             fin = done[0].res if done else "?"
